@@ -9,11 +9,13 @@ from hv import Case
 from kern2 import Snap, fr_tok
 
 SPEC = {
-    "lean_modules": ["Honeycomb.Props.C14", "Honeycomb.Props.C14b"],
+    "lean_modules": ["Honeycomb.Props.C14", "Honeycomb.Props.C14b", "Honeycomb.Props.C14c"],
     "required_theorems": ["C14_insertVertices_preserves_WF", "C14_insertVertex_preserves_WF",
                           "C14_error_leaves_map_unchanged", "C14_new_vertex_position",
                           "C14_insertVertices_beta_structure", "C14_new_darts_distinct_vertices",
-                          "C14_new_vertex_position_full", "C14_insertVertex_beta_structure"],
+                          "C14_new_vertex_position_full", "C14_insertVertex_beta_structure",
+                          "C14_old_vertices_unchanged", "C14_old_vertices_unchanged_single",
+                          "C14_old_vertices_keep_coordinates", "C14_old_vertices_keep_coordinates_single"],
     "trusted_base": [
         "Lean 4.33 kernel; axioms propext, Classical.choice, Quot.sound only",
         "hand-written model Honeycomb/Model/Kernels/{Geom2,VertexInsertion}.lean (+ Stm, Map, Ops, Ops2) tied to /repo by the "
@@ -37,7 +39,8 @@ SPEC = {
             "unchanged; invalid inputs are refused with the documented error kind, valid ones accepted. "
             "distinct_nontrivial = distinct implementation transcripts.",
     "not_proved": [
-        "vertex orbits of the two END points are unchanged as dart sets (oracle only)",
+        "the UndefinedEdge error as an exact characterisation (needs totality of the vertex-id BFS inside the kernel); the direction "
+        "'Ok => both end points defined' is part of C14_ok_implies_guards",
     ],
 }
 
